@@ -61,11 +61,36 @@ def sweep_args(spec):
     return items, dims, exclude, constants, derivers
 
 
-def build(spec):
-    from pipefunc.sweep import Sweep
+_API = {}
 
+
+def api(name):
+    if name not in _API:
+        import pipefunc.sweep as ps
+
+        _API[name] = getattr(ps, name)
+    return _API[name]
+
+
+def build(spec):
     items, dims, exclude, constants, derivers = sweep_args(spec)
-    return Sweep(items, dims=dims, exclude=exclude, constants=constants, derivers=derivers)
+    return api("Sweep")(items, dims=dims, exclude=exclude, constants=constants, derivers=derivers)
+
+
+_PINNED = {}
+
+
+def pin(spec):
+    """Memoise the reference list of a generated operand for the duration of a batch."""
+    _PINNED[id(spec)] = (spec, M.ref_list(spec))
+    return spec
+
+
+def ref(spec):
+    hit = _PINNED.get(id(spec))
+    if hit is not None and hit[0] is spec:
+        return hit[1]
+    return M.ref_list(spec)
 
 
 def ms(lst):
@@ -104,8 +129,7 @@ def short(x, n=400):
 
 
 def probe_single(spec):
-    from pipefunc.sweep import generate_sweep
-
+    generate_sweep = api("generate_sweep")
     fails = []
     exp = M.ref_list(spec)
     try:
@@ -131,7 +155,7 @@ def probe_single(spec):
                 fails.append(("len:differs-from-list", f"len(sweep) == {n!r} but len(sweep.list()) == {len(got)}"))
         except Exception as e:  # noqa: BLE001
             fails.append((exc_sig(e, "exc:Sweep.__len__"), exc_msg(e)))
-        for how, fn in (("iter", lambda: list(iter(s))), ("for", lambda: [c for c in s]),
+        for how, fn in (("iter", lambda: list(iter(s))), ("for", lambda: [c for c in s]), ("list(sweep)", lambda: list(s)),
                         ("generate", lambda: list(s.generate())), ("list-again", lambda: s.list())):
             try:
                 it = fn()
@@ -198,8 +222,7 @@ def get_pipeline(pl):
 
 
 def probe_count(case):
-    from pipefunc.sweep import count_sweep
-
+    count_sweep = api("count_sweep")
     spec, pl, mode = case["spec"], case["pl"], case["mode"]
     combos = M.ref_list(spec)
     pandas = mode.startswith("pandas")
@@ -242,7 +265,7 @@ def trigger26(ops):
 
 def probe_product(case):
     ops = case["ops"]
-    exp = M.cartesian([M.ref_list(s) for s in ops])
+    exp = M.cartesian([ref(s) for s in ops])
     try:
         sw = [build(s) for s in ops]
         if case["form"] == "nested" and len(sw) == 3:
@@ -280,10 +303,9 @@ def probe_product(case):
 
 
 def probe_concat(case):
-    from pipefunc.sweep import MultiSweep
-
+    MultiSweep = api("MultiSweep")
     ops, form = case["ops"], case["form"]
-    exps = [M.ref_list(s) for s in ops]
+    exps = [ref(s) for s in ops]
     try:
         sw = [build(s) for s in ops]
         if form == "MultiSweep":
@@ -348,8 +370,6 @@ def feat_filtered(case):
         f.append("keys-split-a-zipped-group")
     if any(k not in items for k in keys):
         f.append("derived-key")
-    if len(keys) == len(items):
-        f.append("all-keys")
     return ",".join(f)
 
 
@@ -366,6 +386,12 @@ def feat_ops(case):
 
 def simp_filtered(case):
     keys = case["keys"]
+    ik = [k for k, _ in case["spec"]["items"]]
+    for k in keys:
+        if k not in ik:  # a derived key is replaced by an item key
+            repl = [x for x in ik if x not in keys][:1]
+            if repl or len(keys) > 1:
+                yield dict(case, keys=[x for x in keys if x != k] + repl)
     if len(keys) > 1:
         for k in keys:
             yield dict(case, keys=[x for x in keys if x != k])
@@ -540,9 +566,9 @@ def run_single(desc, v, fd):
             nroots = min(len(avail), 1 + rng.randrange(3))
             roots = rng.sample(avail, nroots)
             pl = M.pipeline_for(roots, rng.randrange(2))
-            modes = ["sweep", "list"] if count % 2 else ["sweep"]
-            if count % 8 == 3 and not spec["deriv"] and info["exp"]:
-                modes.append("pandas-sweep" if count % 16 == 3 else "pandas-list")
+            modes = ["sweep", "list"] if rng.random() < 0.5 else ["sweep"]
+            if not spec["deriv"] and info["exp"] and rng.random() < 0.4:
+                modes.append("pandas-sweep" if rng.random() < 0.5 else "pandas-list")
             for mode in modes:
                 case = {"spec": spec, "pl": pl, "mode": mode}
                 fd.check(case, probe_count, simp_count, feat_count, text_count)
@@ -568,17 +594,17 @@ def run_pair(desc, v, fd):
     rng = random.Random(f"c17/pair/{desc['seed']}/{desc['L']}")
     keys_out, sample = [], None
     n = 0
-    lefts = [M.instantiate(L[0], L[1], o, M.ALPHABETS[0], rng, desc["seed"]) for o in OPTS]
+    lefts = [pin(M.instantiate(L[0], L[1], o, M.ALPHABETS[0], rng, desc["seed"])) for o in OPTS]
     for ri, R in enumerate(pool):
         if len(L[0]) == 3 and len(R[0]) == 3:
             continue
         keys_out.append(f"P|{desc['L']}|{ri}")
+        rights = [pin(M.instantiate(R[0], R[1], ro, M.ALPHABETS[1], rng, desc["seed"])) for ro in OPTS]
         for lo, left in zip(OPTS, lefts):
-            for ro in OPTS:
+            for ro, right in zip(OPTS, rights):
                 n += 1
-                right = M.instantiate(R[0], R[1], ro, M.ALPHABETS[1], rng, desc["seed"])
                 ops = [left, right]
-                forms_c = [["add"], ["MultiSweep"], ["combine"]][n % 3]
+                forms_c = [["add"], [], ["MultiSweep"], [], ["combine"], []][n % 6]
                 _pair_ops(fd, v, ops, ["flat"], forms_c)
                 v.count("pairs")
                 if trigger26(ops):
@@ -633,6 +659,7 @@ def run_triple(desc, v, fd):
 def run_case(desc):
     v = V()
     fd = Finder(v)
+    _PINNED.clear()
     if desc["kind"] == "single":
         keys, sample = run_single(desc, v, fd)
     elif desc["kind"] == "pair":
@@ -658,7 +685,7 @@ def finalize(agg, tier, seed):
         "triples": 20000,
         "triples_middle_with_constants[flat]": 1000, "triples_middle_with_derivers[flat]": 1000,
         "triples_middle_with_exclude[flat]": 1000, "triples_middle_with_exclude[nested]": 500,
-        "concat_checks[add]": 50000, "concat_checks[MultiSweep]": 50000, "concat_checks[combine]": 50000,
+        "concat_checks[add]": 20000, "concat_checks[MultiSweep]": 20000, "concat_checks[combine]": 20000,
         "concat_checks[add-right]": 3000,
     }
     for k, n in need.items():
